@@ -203,8 +203,10 @@ ConnectOutcome(args) ==
           : lf \in {[i \in DOMAIN args |->
                        [p \in {l.path : l \in args[i].leaves} |-> CHOOSE l \in args[i].leaves : l.path = p]]}})
 
-(* the argument tuples derived from a signature s by flipping; as / af: ArgOf the leaves of s / Flip(s) *)
-Tuples == << <<"S", "F">>, <<"S", "S">>, <<"F", "F">>, <<"S", "F", "F">>, <<"S", "S", "F">> >>
+(* the argument tuples derived from a signature s by flipping; as / af: ArgOf the leaves of s / Flip(s). *)
+(* "S": an interface created from s;  "F": from s.flip() (the proxy);  "D": from the signature   *)
+(* whose members are those of s with the other flow (Flip as data, no proxy involved).           *)
+Tuples == << <<"S", "F">>, <<"S", "S">>, <<"F", "F">>, <<"S", "F", "F">>, <<"S", "S", "F">>, <<"S", "D">> >>
 Mk(t, as, af) == [i \in DOMAIN t |-> IF t[i] = "S" THEN as ELSE af]
 
 PermuteOutcome(o, pi) == [o EXCEPT !.edges = {<<pi[e[1]], pi[e[2]], e[3]>> : e \in o.edges}]
